@@ -113,6 +113,10 @@ def _perform_decrypt(obj: EncryptionData, registry: JWERegistry) -> None:
         except JoseError as error:
             if registry.verify_all_recipients:
                 raise error
+        except ValueError:
+            # e.g. the "epk" of another recipient is not a key of this key's type
+            if registry.verify_all_recipients:
+                raise
 
     if not cek_set:
         raise DecodeError('Invalid recipients')
